@@ -29,7 +29,7 @@ ASSUMPTIONS = [
     "LabelMapper (checked by C05) is the oracle; documented map direction from docs/label-models.ipynb",
     "maps are bijections on positions (an atom goes to exactly one place)",
 ]
-N = {"quick": 300, "thorough": 200000}
+N = {"quick": 300, "thorough": 60000}
 MIN_NONTRIVIAL = {"quick": 60, "thorough": 1200}
 
 
